@@ -41,3 +41,7 @@ pub static ZCH_EFFECTIVE_FORCED_RESETS: ::core::sync::atomic::AtomicU64 =
 /// Probe: number of times `do_live_reload` was entered.
 pub static LIVE_RELOAD_ATTEMPTS: ::core::sync::atomic::AtomicU64 =
     ::core::sync::atomic::AtomicU64::new(0);
+
+/// Probe: the index into `cfg_paths` that the most recent `do_live_reload` tried to load.
+pub static LIVE_RELOAD_LAST_IDX: ::core::sync::atomic::AtomicUsize =
+    ::core::sync::atomic::AtomicUsize::new(0);
